@@ -138,7 +138,7 @@ def run_path(nodes, path, init):
         elif last["ev"] == "ret":
             ok = outcome[0] == "ret" and outcome[1] is not None and list(outcome[1]) == last["raw"]
             if ok:
-                pk = "none" if outcome[2] is None else ("stub" if "Not_Yet_Implemented" in str(outcome[2]) else "msg")
+                pk = "none" if outcome[2] is None else ("stub" if decode_rec.is_stub(outcome[2]) else "msg")
                 ok = pk == last["pk"]
             if not ok:
                 return (j - 1, {"return_raw": bytes(last["raw"]).hex(), "pk": last["pk"]}, {"outcome": outcome[0], "value": str(outcome[1])[:80]})
